@@ -380,7 +380,26 @@ impl<CharIter: Iterator<Item = char>> Lexer<CharIter> {
                 self.advance(1);
             }
         }
-        self.digital10(number_literal)
+        let exponent_start = number_literal.len();
+        self.digital10(number_literal)?;
+        if number_literal.len() == exponent_start {
+            // "1e", "1e+": an exponent needs digits
+            return located_error!(SyntaxError::UnrecognizedToken, Some(self.location));
+        }
+        match self.peekable_char_stream.peek() {
+            Some(nc) => Self::test_delimiter(Some(self.location), *nc),
+            None => Ok(()),
+        }
+    }
+
+    // a decimal needs at least one digit in its mantissa ("+." and "-.e1" are not numbers)
+    fn check_mantissa(&self, number_literal: &str) -> Result<()> {
+        let mantissa = number_literal.split('e').next().unwrap_or("");
+        if mantissa.chars().any(|c| c.is_ascii_digit()) {
+            Ok(())
+        } else {
+            located_error!(SyntaxError::UnrecognizedToken, Some(self.location))
+        }
     }
 
     fn real(&mut self, number_literal: &mut String) -> Result<()> {
@@ -418,12 +437,14 @@ impl<CharIter: Iterator<Item = char>> Lexer<CharIter> {
                             '0'..='9' => self.digital10(&mut number_literal)?,
                             'e' => {
                                 self.number_suffix(&mut number_literal)?;
+                                self.check_mantissa(&number_literal)?;
                                 break Ok(Some(TokenData::Primitive(Primitive::Real(
                                     number_literal,
                                 ))));
                             }
                             '.' => {
                                 self.real(&mut number_literal)?;
+                                self.check_mantissa(&number_literal)?;
                                 break Ok(Some(TokenData::Primitive(Primitive::Real(
                                     number_literal,
                                 ))));
